@@ -236,7 +236,10 @@ def _run_case(case, rec, mon=None):
         x = gen.signal(rng, int(N), kind, dt, views=True)
         x.setflags(write=False)
         try:
-            comp.compute_full(x)
+            if j % 3 == 2:
+                comp.compute_full(signal=x)  # the same call spelled with the keyword
+            else:
+                comp.compute_full(x)
         except Exception:
             pass
     rec.sample({"cfg": cfg, "fl": int(fl), "fs": int(fs), "lengths": [int(n) for n in pick]})
